@@ -62,10 +62,32 @@ theorem all_loop {α : Type} (t : α → Bool) (f : α → Bool → Option (ForI
     rw [List.forIn_cons, hf]
     cases h : t x <;> simp [ih, h]
 
+/-- the same loop with an arbitrary state: "every element passes the test" whether the code keeps a flag and
+    breaks or returns from a helper — a failing element ends the loop with the state `d` (the same for all) -/
+theorem all_loop_gen {α σ : Type} (t : α → Bool) (f : α → σ → Option (ForInStep σ)) (l : List α) (init d : σ)
+    (hf : ∀ x, f x init = some (if t x = true then ForInStep.yield init else ForInStep.done d)) :
+    forIn l init f = some (if l.all t = true then init else d) := by
+  induction l with
+  | nil => simp
+  | cons x l ih =>
+    rw [List.forIn_cons, hf]
+    cases h : t x <;> simp [ih, h]
+
 /-- the inner loop of `allowedLoop` setting the labelled-continue flag -/
 theorem any_flag_loop {α : Type} (t : α → Bool) (f : α → Bool → Option (ForInStep Bool)) (l : List α) (b : Bool)
     (hf : ∀ x b, f x b = if t x = true then pure (ForInStep.done true) else pure (ForInStep.yield b)) :
     forIn l b f = some (b || l.any t) := by
+  induction l with
+  | nil => simp
+  | cons x l ih =>
+    rw [List.forIn_cons, hf]
+    cases h : t x <;> simp [ih, h]
+
+/-- a loop that ends at the first element passing the test `t`, with an abstract body and an arbitrary state:
+    such an element ends the loop with the state `d`, the others leave the state as it is -/
+theorem any_loop_gen {α σ : Type} (t : α → Bool) (f : α → σ → Option (ForInStep σ)) (l : List α) (init d : σ)
+    (hf : ∀ x, f x init = some (if t x = true then ForInStep.done d else ForInStep.yield init)) :
+    forIn l init f = some (if l.any t = true then d else init) := by
   induction l with
   | nil => simp
   | cons x l ih =>
@@ -143,15 +165,20 @@ theorem detect_route (X : ImpGen.Ext) (routes : List Route) (req : Req) :
     intro r; show (req.method == r.method) = decide _
     by_cases h : req.method = r.method <;> simp [h]
   unfold ImpGen.RouterJSR311_detectRoute
+  unfold_gen_helpers keeping ImpGen.Route_matchesContentType ImpGen.Route_matchesAccept
   dsimp only
   rw [T7.enum_filter_loop (genRoute req) (passesConds · req)]
   case hf =>
     intro k r acc hk
     dsimp only
-    rw [T7.all_loop (fun (fn : HttpRequest → Bool) => fn (genReq req)) _ _ _ (fun _ _ => rfl)]
     have hp : (genRoute req r).If.all (fun fn => fn (genReq req)) = passesConds r req := by
       simp only [genRoute, passesConds, List.all_map]; rfl
-    rw [hp, Bool.true_and, at?_nat, List.getElem?_map, hk]
+    -- the If-conditions: all of them must hold (a flag and `break`, or a helper returning early)
+    rw [T7.all_loop_gen (fun (fn : HttpRequest → Bool) => fn (genReq req))]
+    case hf =>
+      intro fn
+      cases fn (genReq req) <;> rfl
+    simp only [hp, at?_nat, List.getElem?_map, hk, Option.map_some, Option.bind_eq_bind, Option.bind_some]
     cases passesConds r req <;> rfl
   simp only [Option.bind_eq_bind, Option.bind_some]
   rw [T7.filter_loop (fun r => some (genRoute req r)) (fun r => decide (req.method = r.method))]
@@ -165,8 +192,12 @@ theorem detect_route (X : ImpGen.Ext) (routes : List Route) (req : Req) :
     intro r acc
     have hM : (genRoute req r).Method = r.method := rfl
     simp only [deref, Option.bind_some, hM]
-    rw [T7.any_flag_loop (fun m => m == r.method) _ _ _ (fun _ _ => rfl)]
-    simp only [Bool.false_or, List.any_beq', Option.bind_some]
+    -- "the method is listed already": a flag set in an inner loop, in whatever form the body sets it
+    rw [T7.any_loop_gen (fun m => m == r.method)]
+    case hf =>
+      intro m
+      cases (m == r.method) <;> rfl
+    simp only [List.any_beq', Option.bind_some]
     cases acc.contains r.method <;> rfl
   rw [T7.filter_loop (fun r => some (genRoute req r)) (matchesContentType · req.contentType)]
   case hf =>
